@@ -217,6 +217,21 @@ fn keep_double_minus_apart(unop: &UnOp, expression: Expression) -> Expression {
     expression
 }
 
+/// A single line comment directly after a unary operator would comment out the operand if it stayed on the
+/// same line: the operand is moved onto a new line in that case.
+fn move_operand_below_comment(
+    ctx: &Context,
+    unop: &UnOp,
+    expression: Expression,
+    shape: Shape,
+) -> Expression {
+    if unop.token().has_trailing_comments(CommentSearch::Single) {
+        trivia_util::prepend_newline_indent(ctx, &expression, shape.increment_additional_indent())
+    } else {
+        expression
+    }
+}
+
 /// Collects the comments bound to a pair of parentheses which is being removed, so that they can be appended onto
 /// the expression inside: the ones around the opening parenthesis go in front of it, the ones around the closing
 /// parenthesis go behind it.
@@ -348,6 +363,7 @@ fn format_expression_internal(
                 shape,
             );
             let expression = keep_double_minus_apart(&unop, expression);
+            let expression = move_operand_below_comment(ctx, &unop, expression, shape);
 
             Expression::UnaryOperator {
                 unop,
@@ -1468,6 +1484,7 @@ fn format_hanging_expression_(
                 lhs_range,
             );
             let expression = keep_double_minus_apart(&unop, expression);
+            let expression = move_operand_below_comment(ctx, &unop, expression, shape);
 
             Expression::UnaryOperator {
                 unop,
